@@ -231,6 +231,62 @@ def sc_wide_validation(name, nseg):
                       describe=f"validate_deep_anwendungshandbuch on a group with a sub-group and {nseg} segments (every seventh forbidden)")
 
 
+def injected_provider_check(res):
+    """the library's own way to provide evaluatable data (evaluator_factory.create_and_inject_hardcoded_evaluators with an evaluatable_data_provider that reads
+    context-local storage): two evaluations running concurrently with data of different formats must each behave as when running alone"""
+    import contextvars
+    import ahb
+    import inject
+    from ahbicht.content_evaluation.evaluationdatatypes import EvaluatableData
+    from ahbicht.content_evaluation.evaluator_factory import create_and_inject_hardcoded_evaluators
+    from ahbicht.expressions.requirement_constraint_expression_evaluation import requirement_constraint_evaluation
+    from efoli import EdifactFormat
+    var = contextvars.ContextVar("verif_injected_data")
+    cer = ahb.make_cer(rc={1: "F", 2: "U"}, fc={}, hints={501: "H501"})
+
+    def fresh():
+        inject.clear()
+        create_and_inject_hardcoded_evaluators(cer, evaluatable_data_provider=var.get, edifact_format=ahb.FMT, edifact_format_version=ahb.FV)
+
+    async def one(fmt, yields):
+        var.set(EvaluatableData(body={"of": str(fmt)}, edifact_format=fmt, edifact_format_version=ahb.FV))
+        for _ in range(yields):
+            await asyncio.sleep(0)
+        try:
+            r = await requirement_constraint_evaluation("[1] U [501]")
+            return ("ok", r.requirement_constraints_fulfilled, r.hints)
+        except NotImplementedError:
+            return ("NotImplementedError",)
+        except BaseException as e:  # pylint:disable=broad-except
+            return ("raised", type(e).__name__)
+
+    fmts = [ahb.FMT, EdifactFormat.MSCONS]
+    try:
+        alone = {}
+        for f in fmts:
+            fresh()
+            alone[f] = asyncio.run(one(f, 0))
+        for order in (fmts, fmts[::-1]):
+            for yields in ((0, 0), (2, 0), (0, 2)):
+                fresh()
+
+                async def both():
+                    return await asyncio.gather(*[asyncio.ensure_future(one(f, y)) for f, y in zip(order, yields)])
+
+                got = dict(zip(order, asyncio.run(both())))
+                res.count("evaluations", 2)
+                if got != {f: alone[f] for f in order}:
+                    res.violation(f"two concurrent evaluations whose evaluatable data come from context-local storage through the provider handed to "
+                                  f"create_and_inject_hardcoded_evaluators (formats {[str(f) for f in order]}, yields before the evaluation {yields}): results "
+                                  f"{ {str(k): v for k, v in got.items()} }, alone each gives { {str(k): v for k, v in alone.items()} }", {"kind": "injected-provider"})
+                    return
+    finally:
+        inject.clear()
+        ahb._cer_provider = None
+        ahb.configure()
+    res.coverage["injected_provider_check"] = "2 formats x 2 start orders x 3 yield patterns: every evaluation as when running alone"
+
+
 def wide_scenarios(thorough):
     return [sc_wide_rc("rc40", 40), sc_wide_validation("wide40", 40)] + ([sc_wide_rc("rc33", 33), sc_wide_validation("wide34", 34)] if thorough else [])
 
@@ -282,6 +338,7 @@ def run():
     ahb.configure()
     for i, sc in enumerate(scenarios(thorough)):
         A.check_scenario(sc, res, work, rng, max_all=(3000 if thorough else 300), extra_random=(300 if thorough else 25), sensitivity=({"ahb2": [("completion_order", "copy", "Assoc")], "validfc": [("positional", "shared", "OwnContext")]}.get(sc.name)))
+    injected_provider_check(res)
     for sc in wide_scenarios(thorough):
         A.check_large_scenario(sc, res, rng, n=(400 if thorough else 120))
     bad = [s for s in res.coverage.get("sensitivity", []) if s["violated"] != s["expected_to_violate"]]
